@@ -147,7 +147,9 @@ def extra(ctx):
     it = iter(mo); nb = 0
     for ln, c in zip(lines, cert):
         if c is None: continue
-        m = next(it); nb += 1
+        m = next(it)
+        if vlib.timed_out(ctx, m): continue
+        nb += 1
         if m.strip() != '1':
             bad.append((ln, c, 'model rejects the gcdext certificate: ' + m[:80]))
     ctx.extra_cov['large_gcdext_certified'] = nb
